@@ -36,13 +36,39 @@ def classDefJ (c : ClassDef) : Json := Json.arr #[strsJ c.base, strsJ c.ligature
 def caretsJ (l : List (String × List Int)) : Json := listJ (pairJ Json.str (listJ intJ)) l
 def asCarets (j : Json) : R (List (String × List Int)) := asList (asPair asStr (asList asInt)) j
 
+structure Closure where
+  rules : List Rule
+  ltr0 : List String
+  neutral0 : List String
+
+def asRule (j : Json) : R Rule := do
+  let (n, o) ← asPair (asList asStr) (asList asStr) j
+  return { need := n, out := o }
+
+/-- optional field "closure" of a font input: the GSUB rules the harness wrote and the cmap classification; with it
+the left-to-right set is computed by the model (`classifyDir`) instead of being taken from ufo2ft -/
+def readClosure (i : Json) : R (Option Closure) := do
+  match (i.getObjVal? "closure").toOption with
+  | none => return none
+  | some Json.null => return none
+  | some c =>
+    let rules ← asList asRule (← field c "rules")
+    let ltr0 ← asList asStr (← field c "ltr0")
+    let neutral0 ← asList asStr (← field c "neutral0")
+    let (s, n) := classifyDir rules ltr0 neutral0
+    if !(closedUnder rules n && closedUnder rules (s ++ n)) then throw "C18: closure did not converge"
+    return some { rules, ltr0, neutral0 }
+
 def readInput (i : Json) : R (Input × UserGdef) := do
   let glyphs ← asList asGlyph (← field i "glyphs")
   let cats ← asList (asPair asStr asStr) (← field i "categories")
   let blocks ← asList (asPair asBool asBool) (← field i "blocks")
   let quant ← asOpt asRat (← field i "quant")
   let anyLtr ← asBool (← field i "anyLtrCp")
-  let ltr ← asOpt (asList asStr) (← field i "ltr")
+  let ltrGiven ← asOpt (asList asStr) (← field i "ltr")
+  let ltr := match ← readClosure i with
+    | some c => if anyLtr then some (classifyDir c.rules c.ltr0 c.neutral0).1 else none
+    | none => ltrGiven
   let extras ← match (i.getObjVal? "extras").toOption with
     | some j => asList (asPair asStr asStr) j
     | none => pure []
@@ -61,9 +87,14 @@ def firstNamedOnly (g : GlyphIn) : GlyphIn :=
 /-- op "font": the whole observation of one compiled font -/
 def font (req : Json) : R Reply := do
   let (i, u) ← readInput (← field req "in")
+  let clo ← readClosure (← field req "in")
   let obs ← field req "obs"
   let oerr ← asOpt asStr (← field obs "err")
   let o := run i
+  let mdir := match clo with
+    | some c => let (s, n) := classifyDir c.rules c.ltr0 c.neutral0
+                Json.mkObj [("ltr", strsJ (sortStr s)), ("neutral", strsJ (sortStr n))]
+    | none => Json.null
   do
     let noUserCd := !userAnyClassDef i
     let noUserCar := !userAnyCarets i
@@ -76,7 +107,7 @@ def font (req : Json) : R Reply := do
         | none => if noUserCar then caretsJ [] else Json.null)]
     let mk (parts : Json) := Json.mkObj [("err", Json.null),
       ("fea", Json.mkObj [("classDef", optJ classDefJ o.gdef.classDef), ("carets", optJ caretsJ o.gdef.carets)]),
-      ("font", mfont), ("curs", listJ lookupJ o.curs), ("_parts", parts)]
+      ("font", mfont), ("curs", listJ lookupJ o.curs), ("dir", mdir), ("_parts", parts)]
     match oerr with
     | some _ => return { model := mk Json.null, holds := false }
     | none =>
@@ -92,14 +123,22 @@ def font (req : Json) : R Reply := do
       let h3 := holdsClassesFont i u fcl
       let h4 := holdsCaretsFont i u fcar
       let h5 := holdsCurs i curs
+      -- the direction sets ufo2ft's classifyGlyphs computed (predicate on the observed sets)
+      let h6 ← match clo with
+        | none => pure true
+        | some c => do
+          let od ← field obs "dir"
+          let ol ← asList asStr (← field od "ltr")
+          let on ← asList asStr (← field od "neutral")
+          pure (holdsDirSet c.rules c.ltr0 c.neutral0 ol on)
       -- classification helpers (not part of `holds`)
       let i1 := { i with glyphs := i.glyphs.map firstNamedOnly }
       let c1 := holdsCaretsFea i1 ocar && holdsCaretsFont i1 u fcar
       let i2 := { i with blocks := i.blocks.take 1 }
       let c2 := holdsClassesFea i2 ocd && holdsCaretsFea i2 ocar
       let parts := Json.mkObj [("classesFea", h1), ("caretsFea", h2), ("classesFont", h3), ("caretsFont", h4),
-        ("curs", h5), ("caretsIfFirstNamed", c1), ("gdefIfFirstBlockOnly", c2)]
-      return { model := mk parts, holds := h1 && h2 && h3 && h4 && h5 }
+        ("curs", h5), ("dir", h6), ("caretsIfFirstNamed", c1), ("gdefIfFirstBlockOnly", c2)]
+      return { model := mk parts, holds := h1 && h2 && h3 && h4 && h5 && h6 }
 
 /-- op "anchor": `_getAnchor` + `quantize` called directly.  obs = null | [x, y] -/
 def anchor (req : Json) : R Reply := do
